@@ -10,7 +10,7 @@ CONSTANTS
  TTL = 2
  Forbid = FALSE
  Foreign = FALSE
- MaxTime = 4
+ MaxTime = 3
  MaxEvq = 2
  MaxFaults = 0
  MaxCrash = 0
